@@ -2,9 +2,10 @@
    Imports only Mathlib-free model files. -/
 import Iodata.Drv.Conv
 import Iodata.Drv.IOData
+import Iodata.Drv.Orbitals
 
 def handlers : List (List String → Option String) :=
-  [Iodata.Drv.Conv.handle, Iodata.Drv.IOData.handle]
+  [Iodata.Drv.Conv.handle, Iodata.Drv.IOData.handle, Iodata.Drv.Orbitals.handle]
 
 def respond (line : String) : String :=
   let ws := (line.splitOn " ").filter (· ≠ "")
